@@ -138,6 +138,41 @@ func aimedAMs(caps amCaps) []*amSchema {
 			)},
 		))
 	}
+	// 7. integers beyond 2^53 as defaults and constants (not representable as float64)
+	if caps.Defaults {
+		big := tyw("int", pickWidthDefault(caps.IntWidths, "int64"))
+		flds := []*amField{
+			fld("id", true, withDefault(big, num("9007199254740993"))),
+			fld("limit", false, withDefault(big, num("9223372036854775807"))),
+			fld("floor", false, withDefault(big, num("-9007199254740995"))),
+			fld("small", true, withDefault(big, num("7"))),
+		}
+		if caps.NonStringConst && caps.Consts {
+			flds = append(flds, fld("magic", true, konst(int64(9007199254740993))))
+		}
+		out = append(out, mk(&amObject{"BigNumbers", st(flds...)}))
+	}
+	// 8. arrays and maps whose elements are nullable references to enums / scalar aliases / structs
+	if caps.NullableRefs && caps.Enums {
+		out = append(out, mk(
+			&amObject{"Level", enumS("low", "mid", "high")},
+			&amObject{"Ident", strLen(1, 6)},
+			&amObject{"Sparse", st(
+				fld("levels", true, arr(nullable(rf("Level")))),
+				fld("idents", false, arr(nullable(rf("Ident")))),
+				fld("grid", false, arr(arr(nullable(rf("Level"))))),
+				fld("byKey", false, mp(nullable(rf("Level")))),
+			)},
+		))
+		// (kept apart: struct elements exercise other generated code than enum / scalar-alias elements)
+		out = append(out, mk(
+			&amObject{"Node", st(fld("name", true, strLen(1, 6)))},
+			&amObject{"SparseNodes", st(
+				fld("nodes", true, arr(nullable(rf("Node")))),
+				fld("byKey", false, mp(nullable(rf("Node")))),
+			)},
+		))
+	}
 	return out
 }
 
